@@ -6,8 +6,8 @@
                           |Bottom_n(A u B) n A n B| and union n
      DistanceLaws       : the resulting fixed-point distance is symmetric, within [0, 10^8], 0 for A = B,
                           10^8 when nothing is shared
-   JaccardAnySize is the same claim without the domain guard; TLC refutes it (the code's
-   union = min(k, m + len(a)-i + len(b)-j) is not the size of anything when a sketch is not full). *)
+   JaccardAnySize is the same claim without the fullness guard; TLC refutes it (MC_MashJaccard_anysize.cfg:
+   the code's union = min(k, m + len(a)-i + len(b)-j) is not the size of anything when no sketch is full). *)
 EXTENDS Mash
 
 CONSTANTS Vals, MaxN, Ks
@@ -43,9 +43,14 @@ FromJaccardMonotone ==
     \A k \in Ks : \A m1, m2 \in 1..TableMax : \A i1 \in 0..m1, i2 \in 0..m2 :
         (i1 * m2 <= i2 * m1) => DistFP(i1, m1, k) >= DistFP(i2, m2, k)
 
+\* Variants of the claim outside the property's domain (which part of the guard is needed?).
+\* JaccardAnySize (non-empty sets, no fullness guard) is refuted by TLC for n >= 5, e.g. A = B = {1}, n = 6:
+\* the walk returns <<1, 5>> - "union" 5 is not the size of anything.  For n <= 3 the only
+\* counterexamples have an empty sketch.  JaccardOneFull (one sketch full, both non-empty) holds in scope.
 JaccardAnySize ==
-  ph = 1 => IIntersect(VA, VB, n) = <<PJaccardNum(A, B, n), n>>
-\* a weaker reading outside the domain: at least the *intersection* count is right whenever ... (refuted too
-\* unless both are full or share nothing to cut) - kept for the record, not checked by default
+  (ph = 1 /\ A # {} /\ B # {}) => IIntersect(VA, VB, n) = <<PJaccardNum(A, B, n), n>>
+JaccardOneFull ==
+  (ph = 1 /\ (Full(A, n) \/ Full(B, n)) /\ A # {} /\ B # {}) => IIntersect(VA, VB, n) = <<PJaccardNum(A, B, n), n>>
+\* the intersection count alone is right on every input; only the code's union is off
 InterAnySize == ph = 1 => IIntersect(VA, VB, n)[1] = PJaccardNum(A, B, n)
 =============================================================================
